@@ -62,9 +62,9 @@ PROPS = {
                 focus={'join', 'entityAdd', 'compAdd', 'action', 'assetAdd'},
                 topics=slice_of(['disconnect', 'join', 'receipt'], kinds=['outcome'],
                                 outs={'leaveBcast', 'entityDeleteBcast', 'sessionState', 'vikjaState', 'odalState'})),
-    'C07': dict(modules=['Hagall.Props.C07'], profiles=['join', 'mixed'], n=(240, 4000), focus={'join'}, tools=['drive', 'extract', 'wire'], extra=['wire_harness', 'conc_explore'],
+    'C07': dict(modules=['Hagall.Props.C07', 'Hagall.Props.C07Conc'], profiles=['join', 'mixed'], n=(240, 4000), focus={'join'}, tools=['drive', 'extract', 'wire'], extra=['wire_harness', 'conc_explore'],
                 topics=slice_of(['join', 'disconnect'], kinds=['state', 'gauge'], outs={'joinResp', 'error'})),
-    'C10': dict(modules=['Hagall.Props.C10'], profiles=['join', 'mixed', 'comp', 'module'], n=(240, 4000), focus={'join', 'entityAdd', 'typeAdd', 'assetAdd'},
+    'C10': dict(modules=['Hagall.Props.C10', 'Hagall.Props.C07Conc'], profiles=['join', 'mixed', 'comp', 'module'], n=(240, 4000), focus={'join', 'entityAdd', 'typeAdd', 'assetAdd'},
                 tools=['drive', 'extract', 'wire'], extra=['wire_harness', 'conc_explore'],
                 topics=slice_of(['join', 'entityAdd', 'typeAdd', 'typeGetName', 'typeGetId', 'assetAdd'], kinds=['state'], answer_only=True,
                                 outs={'joinResp', 'entityAddResp', 'typeAddResp', 'typeNameResp', 'typeIdResp', 'assetAddResp'})),
